@@ -249,7 +249,10 @@ pub(crate) fn with_document_scope<R>(f: impl FnOnce() -> R) -> R {
     }
     let saved = STATE.with(|state| std::mem::take(&mut *state.borrow_mut()));
     let guard = RestoreGuard(Some(saved));
+    // The fallback error location is per-document state as well.
+    let fallback = crate::de_error::MissingFieldLocationGuard::parked();
     let result = f();
+    drop(fallback);
     drop(guard);
     result
 }
